@@ -159,8 +159,8 @@ def render(net, lex, opts=None):
                 dc_at = places.choice(["I-SIGNAL", "SYSTEM-SIGNAL", "SYSTEM-SIGNAL", "both"])
                 sig_type = places.random() < 0.3
                 dyn_len = places.random() < 0.3
-                # (a UNIT-REF in the PHYSICAL-PROPS of the SYSTEM-SIGNAL alone is not read by the unchanged reader - the unit comes back empty: kept out of the stream for now)
-                unit_at = places.choice(["COMPU-METHOD", "COMPU-METHOD", "I-SIGNAL", "both"])
+                # (a UNIT-REF in the PHYSICAL-PROPS of the SYSTEM-SIGNAL alone was not read before the repair of round 9: the unit came back empty)
+                unit_at = places.choice(["COMPU-METHOD", "COMPU-METHOD", "I-SIGNAL", "both", "SYSTEM-SIGNAL"])
             # compu method: factor = n1/den, offset = n0/den
             den, mult = L.rng.choice([("1", 1), ("1", 1), ("2", 2), ("4", 4), ("5", 5), ("10", 10)]) if L.level else ("1", 1)
             n1 = str(N.D(s["factor"]) * mult)
@@ -179,11 +179,14 @@ def render(net, lex, opts=None):
             cm_name = "CM_" + isig
             cmk = [sn(cm_name, d + 1), x.el("CATEGORY", text="SCALE_LINEAR_AND_TEXTTABLE" if s["values"] else "LINEAR", depth=d + 1)]
             unit_ref = ""
+            sys_unit_ref = ""
             if s["unit"]:
-                if unit_at != "I-SIGNAL":
+                if unit_at not in ("I-SIGNAL", "SYSTEM-SIGNAL"):
                     cmk.append(ref("UNIT-REF", "UNIT", unit(s["unit"]), d + 1))
-                if unit_at != "COMPU-METHOD":
+                if unit_at not in ("COMPU-METHOD", "SYSTEM-SIGNAL"):
                     unit_ref = ref("UNIT-REF", "UNIT", unit(s["unit"]), d + 4)
+                if unit_at == "SYSTEM-SIGNAL":
+                    sys_unit_ref = ref("UNIT-REF", "UNIT", unit(s["unit"]), d + 4)
             cmk.append(x.el("COMPU-INTERNAL-TO-PHYS", [x.el("COMPU-SCALES", scales, depth=d + 3)], depth=d + 2))
             compu_x.append(x.el("COMPU-METHOD", cmk, depth=d))
             # limits as internal (raw) constraints
@@ -204,7 +207,7 @@ def render(net, lex, opts=None):
                                              x.el("I-SIGNAL-TYPE", text="PRIMITIVE", depth=d + 1) if sig_type else "",
                                              x.el("LENGTH", text=s["size"], depth=d + 1), props,
                                              ref("SYSTEM-SIGNAL-REF", "SYSTEM-SIGNAL", P + "/SystemSignals/" + isig + "_sys", d + 1)], depth=d))
-            phys = [cm_ref if cm_at != "I-SIGNAL" else "", dc_ref if dc_at != "I-SIGNAL" else ""]
+            phys = [cm_ref if cm_at != "I-SIGNAL" else "", dc_ref if dc_at != "I-SIGNAL" else "", sys_unit_ref]
             phys_props = ""
             if any(phys):
                 phys_props = x.el("PHYSICAL-PROPS", [x.el("SW-DATA-DEF-PROPS-VARIANTS", [x.el("SW-DATA-DEF-PROPS-CONDITIONAL", phys, depth=d + 3)], depth=d + 2)], depth=d + 1)
